@@ -240,7 +240,7 @@ def read_back(path, module, qualname):
 
 
 def cli_argv(sc):
-    argv = (["-v"] if sc["verbose"] else []) + [sc["cmd"], sc["module"] + (":" + sc["qualname"] if sc["qualname"] else "")]
+    argv = (["-v"] if sc["verbose"] else []) + [sc["cmd"], sc["module"] + (":" + sc["qualname"] if sc["qualname"] is not None else "")]
     if sc["sample_count"]:
         argv.append("--sample-count")
     return argv
@@ -356,12 +356,12 @@ def gen_scenarios(tier, rnd, env):
                 out.append(sc(WALL, V3[:p] + [t] + V3[p:], verbose=verbose, family="every-kind-every-position"))
     # (b) all subsets and orders of a 4-row alphabet (two valid... one valid, three stale kinds)
     perms = [list(p) for k in range(0, 5) for p in itertools.permutations(S4, k)]
-    chosen = rnd.sample(perms, 10) if quick else perms
+    chosen = rnd.sample(perms, 8) if quick else perms
     for j, p in enumerate(chosen):
         out.append(sc(WALL, p, verbose=bool(j % 2), family="subsets-and-orders"))
     # (c) random longer stores over the whole pool, any world
     tags = mod_tags(env.pool)
-    for j in range(8 if quick else 150):
+    for j in range(6 if quick else 150):
         n = rnd.randrange(2, 9 if quick else 14)
         out.append(sc(rnd.randrange(0, nw - 1), rnd.sample(tags, n), verbose=rnd.random() < 0.5,
                       sample_count=rnd.random() < 0.4, cmd="apply" if rnd.random() < 0.25 else "stub", family="random"))
@@ -374,6 +374,7 @@ def gen_scenarios(tier, rnd, env):
         sc(WALL, ["removed", "cls", "argcls", "local"], cmd="apply", family="nothing-decodable"),
         sc(WALL, ["meth", "kgone", "prop_set", "ok_a", "m_removed"], qualname="K", verbose=True, family="specifier"),
         sc(WALL, ["meth", "kgone", "ok_a"], qualname="KGone", family="specifier"),
+        sc(WALL, ["removed", "cls"], qualname="", family="specifier"),          # "fxpkg.mod:" -> empty specifier is falsy
         sc(WALL, [], family="empty-store"),
         sc(WALL, ["builtin"], family="decodes-but-no-stub-for-module"),
         sc(WALL, ["builtin", "removed"], sample_count=True, family="decodes-but-no-stub-for-module"),
@@ -383,7 +384,8 @@ def gen_scenarios(tier, rnd, env):
     # (e) the unmutated package: the whole pool decodes except the local-scope function
     out.append(sc(W0, tags, sample_count=True, family="unmutated"))
     out.append(sc(WALL, tags, verbose=True, sample_count=True, family="whole-pool"))
-    out.append(sc(WALL, tags, family="whole-pool"))
+    if not quick:
+        out.append(sc(WALL, tags, family="whole-pool"))
     # (f) apply
     out += [
         sc(WALL, ["ok_a", "removed", "meth", "nontype", "gen"], cmd="apply", family="apply"),
@@ -517,10 +519,11 @@ def run(ctx):
         else:
             rec["what"] = f"to_trace model/real differ (code {code}) for row {r['tag']} in world {r['world']}: real {r['real']}"
             mismatches.append(rec)
-    outs = common.run_coq_shards(ctx.work, "c10cli", header, cli_terms, "scase", "bad verdict_cli 0 cases", shard_size=40)
+    outs = common.run_coq_shards(ctx.work, "c10cli", header, cli_terms, "scase", "bad verdict_cli 0 cases", shard_size=20)
     for i, code in common.parse_bad(outs):
         p = prepared[i]
-        rec = {"scenario": p["s"], "code": code, "kind": "cli", "tags1": p["tags1"], "tags2": p["tags2"],
+        rec = {"scenario": p["s"], "world_mutations": env.worlds[p["s"]["world"]]["muts"], "code": code, "kind": "cli",
+               "tags1": p["tags1"], "tags2": p["tags2"],
                "obs1": p["obs1"], "obs2": p["obs2"], "term": cli_terms[i][:6000]}
         if code == 2:
             rec["what"] = "stale rows not skipped as the property says: " + describe(env, p)
@@ -561,28 +564,46 @@ def run(ctx):
     }
 
 
+def _eval_coq(workdir, name, header, terms, case_type, expr):
+    path = os.path.join(workdir, name + ".v")
+    with open(path, "w") as f:
+        f.write(header + f"\nDefinition cases : list ({case_type}) :=\n  [ " + "\n  ; ".join(terms) + " ].\n"
+                + f"Eval vm_compute in ({expr}).\n")
+    rc, out = common.run_coqc(path)
+    return out
+
+
 def replay(ctx, payload):
-    """re-run one stored CLI scenario (or the whole check when the payload is a row case) and print the three-way result"""
+    """re-run one stored case against the implementation and the model; print implementation output, model output and
+    the verdict / property predicate"""
     rec = payload.get("case", payload)
-    if rec.get("kind") != "cli":
-        print(json.dumps(rec, indent=1, default=str)[:4000])
-        return 0
-    rnd = random.Random(0)
     env = Env(ctx)
     env.setup_pool()
-    muts = payload.get("world_mutations") or rec.get("world_mutations")
+    if rec.get("kind") == "row":
+        env.add_worlds([rec["world"]])
+        w = env.worlds[0]
+        res = w["probe"]["results"][rec["tag"]]
+        exp = fx.expected(rec["tag"], set(w["muts"]))
+        exp_t = "ExpOutside" if exp is None else ("ExpOk" if exp == "ok" else f"(ExpMT {coq_str(exp)})")
+        term = f"RCase {w['name']} {row_term(env.pool[rec['tag']])} {rres_term(res)} {exp_t}"
+        out = _eval_coq(ctx.work, "c10replay", HEADER + env.world_defs() + "\n", [term], "rcase",
+                        "(map verdict_row cases, map (fun c => to_trace subscript_c (rc_world c) (rc_row c)) cases)")
+        print("world(mutations):", w["muts"], "row:", rec["tag"], env.pool[rec["tag"]])
+        print("implementation (real CallTraceRow.to_trace in a fresh interpreter):", res[:3] if res[0] != "ok" else res)
+        print("expected by the property:", exp)
+        print("(verdict, model to_trace):", out[-3000:])
+        return 0
+    if rec.get("kind") != "cli":
+        print(json.dumps(rec, indent=1, default=str)[:6000])
+        return 0
     s = dict(rec["scenario"])
-    if muts is None:
-        env.add_worlds(gen_worlds("quick", random.Random(ctx.seed * 1000 + 10)))
-    else:
-        env.add_worlds([muts])
-        s["world"] = 0
+    env.add_worlds([rec["world_mutations"]])
+    s["world"] = 0
     terms, prepared = evaluate(env, [s], "replay")
-    header = HEADER + env.world_defs() + "\n"
-    outs = common.run_coq_shards(ctx.work, "c10replay", header, terms, "scase",
-                                 "(map verdict_cli cases, map (fun c => model_run c (sc_rows1 c)) cases, map prop_pred cases)")
+    out = _eval_coq(ctx.work, "c10replay", HEADER + env.world_defs() + "\n", terms, "scase",
+                    "(map verdict_cli cases, map (fun c => model_run c (sc_rows1 c)) cases, map prop_pred cases)")
     print("implementation:", describe(env, prepared[0]))
-    print("model / verdict / property predicate:", outs[0][1][-3000:])
+    print("(verdict, model outcome, property predicate on the implementation's output):", out[-3000:])
     return 0
 
 
